@@ -53,10 +53,17 @@ def run(chk, repo: Repo):
     _r4(chk, repo)
     bp = repo.cls("cuqi/problem/_problem.py:BayesianProblem")
     gc = repo.method(bp, "get_components")[1]
-    t = _norm(gc)
-    ok = "problem_info=ProblemInfo()" in t and "forkey,valueinvars(problem_info).items():ifhasattr(self,key):setattr(problem_info,key,vars(self)[key])" in t \
-        and "return(self.model,self.data,problem_info)" in t
-    chk.add("C17-R5", f"{bp.qual}.get_components", ok, site(repo, gc), "(self.model, self.data, info from self's attributes of the same names)",
+    from .common import match, stmts
+    b = None
+    for loop_pats in (["for: ($k,$v) : vars($pi).items()", "if: hasattr(self,$k)", "setattr($pi,$k,vars(self)[$k])"],
+                      ["for: $k : vars($pi)", "if: hasattr(self,$k)", "setattr($pi,$k,vars(self)[$k])"],
+                      ["for: $k : vars($pi).keys()", "if: hasattr(self,$k)", "setattr($pi,$k,vars(self)[$k])"],
+                      ["$own=vars(self)", "for: $k : vars($pi)", "if: hasattr(self,$k)", "setattr($pi,$k,$own[$k])"],
+                      ["$own=vars(self)", "for: ($k,$v) : vars($pi).items()", "if: hasattr(self,$k)", "setattr($pi,$k,$own[$k])"]):
+        b = b or match(repo, bp, gc, ["$pi=ProblemInfo()"] + loop_pats + ["return (self.model,self.data,$pi)"])
+    ok = b is not None
+    rec = any(t.startswith("return") for t, _ in stmts(repo, bp, gc))
+    chk.decide("C17-R5", f"{bp.qual}.get_components", ok, rec, site(repo, gc), "(self.model, self.data, info from self's attributes of the same names)",
             "get_components does not hand out the problem's own model, data and info", gc)
 
 
@@ -147,30 +154,43 @@ def _provenance(chk, repo, ci, init):
 
 
 def _r3(chk, repo):
+    """the matrix handed to the LinearModel in the convolve1d branch, with every temporary replaced by its definition (structural normal form:
+    a loop that collects the columns is the same comprehension)"""
+    from .common import canon_fn
+    from ..flow import Expander
+    from ..pattern import norm as pn
     ci = repo.cls(f"{TP}:Deconvolution1D")
-    init = repo.method(ci, "__init__")[1]
-    D = _defs(init)
-    adefs = [d for d in D.get("A", []) if "Afun" in _norm(d.value)]
-    if len(adefs) != 1:
+    init_src = repo.method(ci, "__init__")[1]
+    init = canon_fn(repo, ci, init_src, 1)
+    ex = Expander(init)
+    OP = "_getConvolutionOperator(dim,PSF,PSF_param,PSF_size,BC)"
+    I = "np.eye(dim)"
+    cands = []
+    for n in ex.cfg.nodes:
+        if n.kind == "stmt" and isinstance(n.ast, ast.Assign) and isinstance(n.ast.targets[0], ast.Name):
+            e = pn(ex.expand(n.ast.value, n))
+            if pn(OP) in e and e.startswith("csc_matrix("):
+                cands.append((n, e))
+    if len(cands) != 1:
         raise AnchorError("Deconvolution1D: assembly of A from Afun not found")
-    v = _norm(adefs[0].value)
-    accepted = ("np.array([Afun(Id[:,i])foriinrange(dim)]).T", "np.column_stack([Afun(Id[:,i])foriinrange(dim)])",
-                "np.stack([Afun(Id[:,i])foriinrange(dim)],axis=1)", "np.array([Afun(Id[i,:])foriinrange(dim)]).T", "np.array([Afun(Id[i])foriinrange(dim)]).T")
-    rowwise = ("np.array([Afun(Id[:,i])foriinrange(dim)])", "Afun(np.eye(dim))", "Afun(Id)", "np.vstack([Afun(Id[:,i])foriinrange(dim)])")
-    if v in accepted:
-        chk.ok("C17-R3", f"{ci.qual}.__init__/A", site(repo, adefs[0]), "column i = Afun(e_i)", adefs[0])
-    elif v in rowwise:
-        chk.fail("C17-R3", f"{ci.qual}.__init__/A", site(repo, adefs[0]),
-                 f"`{unparse(adefs[0].value)}` places the image of the i-th unit vector in ROW i (the 1-D convolution acts along the last axis): the model is the "
-                 f"transpose of the documented convolution; identical only for symmetric PSFs with periodic/zero boundary", adefs[0])
+    n, e = cands[0]
+    inner = e[len("csc_matrix("):-1] if e.startswith("csc_matrix(") and e.endswith(")") else e
+    comp = f"[{OP}({I}[:,_k0]) for _k0 in range(dim)]"
+    accepted = [pn(x) for x in (f"np.array({comp}).T", f"np.column_stack({comp})", f"np.stack({comp},axis=1)",
+                                f"np.array([{OP}({I}[_k0,:]) for _k0 in range(dim)]).T", f"np.array([{OP}({I}[_k0]) for _k0 in range(dim)]).T")]
+    rowwise = [pn(x) for x in (f"np.array({comp})", f"{OP}({I})", f"np.vstack({comp})")]
+    Aname = n.ast.targets[0].id
+    if inner in accepted:
+        chk.ok("C17-R3", f"{ci.qual}.__init__/A", site(repo, init_src), "column i = Afun(e_i)", n.ast)
+    elif inner in rowwise:
+        chk.fail("C17-R3", f"{ci.qual}.__init__/A", site(repo, init_src),
+                 f"`{unparse(n.ast)[:120]}` places the image of the i-th unit vector in ROW i (the 1-D convolution acts along the last axis): the model is the "
+                 f"transpose of the documented convolution; identical only for symmetric PSFs with periodic/zero boundary", n.ast)
     else:
-        raise AnchorError(f"Deconvolution1D: unknown assembly idiom `{v}`")
-    ids = [_norm(d.value) for d in D.get("Id", [])]
-    sp = [_norm(d.value) for d in D.get("A", []) if "csc_matrix" in _norm(d.value)]
-    md = [_norm(d.value) for d in D.get("model", [])]
-    ok = (ids == ["np.eye(dim)"] or v in ("Afun(np.eye(dim))",)) and sp == ["csc_matrix(A)"] and \
-        all(m == "cuqi.model.LinearModel(A,range_geometry=Continuous1D(dim),domain_geometry=Continuous1D(dim))" for m in md)
-    chk.add("C17-R3", f"{ci.qual}.__init__/model", ok, site(repo, init), "LinearModel on the assembled matrix with Continuous1D geometries", "model construction changed", init)
+        raise AnchorError(f"Deconvolution1D: unknown assembly idiom `{inner[:120]}`")
+    md = [pn(x.ast.value) for x in ex.cfg.nodes if x.kind == "stmt" and isinstance(x.ast, ast.Assign) and path_of(x.ast.targets[0]) == "model"]
+    ok = bool(md) and all(m == pn(f"cuqi.model.LinearModel({Aname},range_geometry=Continuous1D(dim),domain_geometry=Continuous1D(dim))") for m in md)
+    chk.add("C17-R3", f"{ci.qual}.__init__/model", ok, site(repo, init_src), "LinearModel on the assembled matrix with Continuous1D geometries", "model construction changed", init_src)
 
 
 def _string_chain(node: ast.If):
